@@ -91,6 +91,7 @@ def triple(ctx):
     ("ip without abs", ("codegen", "def codegen_ip(x, y, diff_func=abs):", "def codegen_ip(x, y, diff_func=lambda d: d):")),
     ("sp keeps k_out == kx", ("codegen", "return codegen_ip(x, y, diff_func=lambda x: 0)", "return codegen_ip(x, y, diff_func=lambda x: 1)")),
     ("ip filter with >=", ("codegen", "filter_func = lambda kx, ky, k_out: k_out == diff_func(kx - ky)", "filter_func = lambda kx, ky, k_out: k_out >= diff_func(kx - ky)")),
+    ("ip filter compares integer objects by identity", ("codegen", "filter_func = lambda kx, ky, k_out: k_out == diff_func(kx - ky)", "filter_func = lambda kx, ky, k_out: k_out is diff_func(kx - ky)")),
 ], rewrites=[
     ("sp via a doubled difference (equivalent for every width)", ("codegen", "return codegen_ip(x, y, diff_func=lambda x: 0)", "return codegen_ip(x, y, diff_func=lambda x: x + x)")),
     ("op filter via |", ("codegen", "filter_func = lambda kx, ky, k_out: k_out == kx + ky", "filter_func = lambda kx, ky, k_out: k_out == kx | ky")),
